@@ -301,6 +301,13 @@ def normSq (A : Mat) : Rat :=
 /- NB the C++ accumulates into one variable over both loops; in exact arithmetic the nested
    sums are the same number (`normSq_flat` in the proofs is not needed by any clause). -/
 
+/-- `Matrix::Norm()²` computed in the scaled domain like `Vector::Norm` (entries times `2^-e`,
+    squared, summed, scaled back): value-neutral over the rationals (theorem `normScaledSq_eq`) -/
+def normScaledSq (e : Int) (A : Mat) : Rat :=
+  let sc : Rat := (2 : Rat) ^ (-e)
+  let up : Rat := (2 : Rat) ^ e
+  (up * up) * sumRange A.rows (fun i => sumRange A.cols (fun j => (A.get i j * sc) * (A.get i j * sc)))
+
 /-- `operator==(Matrix, Matrix)` -/
 def meq (A B : Mat) : Bool :=
   if A.rows ≠ B.rows ∨ A.cols ≠ B.cols then false
